@@ -3,3 +3,4 @@ import SPModel.Basic
 import SPModel.Card
 import SPModel.Logic
 import SPModel.Comb
+import SPModel.Text
